@@ -288,6 +288,51 @@ pub fn run(ctx: &Ctx, rep: &mut Report) {
             Ok(Err(e)) => rep.violation("nondeterministic_output", "compile(system)", &format!("second compilation failed: {:?}", e), "", scenario("")),
             Err(p) => rep.skipped_panic(&p, json!({"world": wi, "stage": "recompile"})),
         }
+        // the same rows with other line conventions (no line break after the last line, CR LF, blank lines in the matrix
+        // text) are the same inputs: same bytes
+        if wi % 4 == 2 {
+            let mut csv2 = world.sys_csv.clone();
+            let mut m2 = world.matrix_text.clone();
+            let what = match rng.below(4) {
+                0 => {
+                    while csv2.ends_with('\n') {
+                        csv2.pop();
+                    }
+                    "no line break after the last lexicon row"
+                }
+                1 => {
+                    while m2.ends_with('\n') {
+                        m2.pop();
+                    }
+                    "no line break after the last matrix line"
+                }
+                2 => {
+                    m2 = m2.replace('\n', "\r\n");
+                    "CR LF in the matrix text"
+                }
+                _ => {
+                    m2 = m2.replacen('\n', "\n\n", 1) + "\n\n";
+                    "blank lines in the matrix text"
+                }
+            };
+            // (rows with a quoted line break inside a field are left alone)
+            if !world.sys_csv.contains("\"\n") {
+                match guard(|| env::compile_system(csv2.as_bytes(), m2.as_bytes())) {
+                    Ok(Ok(b2)) => {
+                        rep.count("line_convention_variants_compared", 1);
+                        if b2 != world.sys_bytes {
+                            rep.violation("nondeterministic_output", "compile(system)", &format!("{}: the compiled bytes differ from those of the plain text", what), "", scenario(what));
+                            world_ok = false;
+                        }
+                    }
+                    Ok(Err(e)) => {
+                        rep.violation("field_mismatch", "compile(system)", &format!("{}: the same rows are rejected: {:?}", what, e), "", scenario(what));
+                        world_ok = false;
+                    }
+                    Err(p) => rep.skipped_panic(&p, json!({"world": wi, "stage": "line conventions"})),
+                }
+            }
+        }
         // ... and once more in a second process (different address space, different hash seeds)
         if wi % 8 == 0 && !miri && ctx.stage == "main" {
             if let Ok(exe) = std::env::current_exe() {
